@@ -233,8 +233,22 @@ def r4(ctx, R):
         R.observe("C15.R4", other.short, "failure mapping", loc(other, other.node), f"{e1} vs {e2}")
 
 
+def r5(ctx, R):
+    R.rule("C15.R5", "a resolver forces what it reads: a derived type resolves its parent's inheritance (whatever file the parent is in) on every path before it copies the parent's members, so the member list does not depend on which file was linked first", floor=1, confirmed=1)
+    from .shared import inherited_member_sites
+
+    for f, node, ok, what, why in inherited_member_sites(ctx):
+        if "resolved before" not in what:
+            continue
+        if ok:
+            R.ok("C15.R5", f.short, what, loc(f, node))
+        else:
+            R.violation("C15.R5", f.short, what, loc(f, node), why)
+
+
 def run(ctx, R):
     r1(ctx, R)
     r2(ctx, R)
     r3(ctx, R)
     r4(ctx, R)
+    r5(ctx, R)
